@@ -176,20 +176,38 @@ theorem C14_terminates (hns : NoUnsetup s.db) (e : Err)
     (h : (remove s name ver recursive check force dn).1 = .failed e) :
     e = .refused ∨ e = .notFound ∨ e = .isSetup ∨ e = .noPermission := by
   unfold remove at h
-  obtain ⟨sb, hsb⟩ := usesInfo_total s.db hns
+  obtain ⟨sb, hsb⟩ := usesInfo_total s.db
   rw [hsb] at h
   rcases removeWith_failed h with ⟨_, ⟨hu, _⟩ | ⟨hu, _⟩⟩ | ⟨sb', _, hc⟩ | ⟨he, _⟩ | ⟨he, _⟩
   rotate_right
   · exact Or.inr (Or.inr (Or.inr he))
   · cases hu
   · cases hu
-  · have hfuel := (collect_fuel s.db hns sb' force dn (name, ver) s.removeFuel name (some ver) recursive []
+  · have hfuel := (collect_fuel s.db sb' force dn (name, ver) s.removeFuel name (some ver) recursive []
       (removeFuel_enough s)).1
     rcases collect_error_kinds s.db hns sb' force dn (name, ver) _ _ _ _ _ _ hc with rfl | rfl | rfl
     · exact Or.inl rfl
     · exact Or.inr (Or.inl rfl)
     · exact absurd hc hfuel
   · exact Or.inr (Or.inr (Or.inl he))
+
+/-- **`remove` never dies in the recursion — on any stack** (tree with the D32 and D33 repairs): whatever the tables
+say (unsetup lines inside dependency cycles, missing table files, unresolved names) and whatever the options, the
+outcome is never the recursion limit: the in-use index is built (`C13_uses_total`), listing the direct
+dependencies of a product returns, and the collection visits every product once. -/
+theorem C14_never_recursion_error :
+    (remove s name ver recursive check force dn).1 ≠ .failed .outOfFuel := by
+  intro h
+  unfold remove at h
+  obtain ⟨sb, hsb⟩ := usesInfo_total s.db
+  rw [hsb] at h
+  rcases removeWith_failed h with ⟨_, ⟨hu, _⟩ | ⟨hu, _⟩⟩ | ⟨sb', _, hc⟩ | ⟨he, _⟩ | ⟨he, _⟩
+  · cases hu
+  · cases hu
+  · exact (collect_fuel s.db sb' force dn (name, ver) s.removeFuel name (some ver) recursive []
+      (removeFuel_enough s)).1 hc
+  · cases he
+  · cases he
 
 /-- **A set-up product is never removed behind the user's back, and never half-way** (tree with the D37 repair):
 unless forced, a successful `remove` removed no product that is set up; the refusal (`C14_refuses`) comes before
